@@ -125,8 +125,43 @@ func (en *Engine) newExec(u *UnitInfo) *Exec {
 		x.hooks = &seqTheory{}
 		x.overflow = true
 	}
+	// loop ordinals: a loop spec that names its loop (`loop #3 over args …`: the range operand as written) is bound to the loop
+	// of that name; the other loops take the remaining ordinals in source order (no names: plain source order)
+	natural := func(l ast.Stmt) string {
+		if r, ok := l.(*ast.RangeStmt); ok {
+			return strings.ReplaceAll(types.ExprString(r.X), " ", "")
+		}
+		return ""
+	}
+	ordOf := make([]int, len(u.Loops))
+	taken := map[int]bool{}
+	for i := range ordOf {
+		ordOf[i] = -1
+	}
+	if u.Spec != nil {
+		for k, ls := range u.Spec.Loops {
+			if ls.Over == "" {
+				continue
+			}
+			for i, l := range u.Loops {
+				if ordOf[i] < 0 && natural(l) == ls.Over && !taken[k] {
+					ordOf[i] = k
+					taken[k] = true
+					break
+				}
+			}
+		}
+	}
+	next := 0
 	for i, l := range u.Loops {
-		x.loopOrd[l] = i
+		if ordOf[i] < 0 {
+			for taken[next] {
+				next++
+			}
+			ordOf[i] = next
+			taken[next] = true
+		}
+		x.loopOrd[l] = ordOf[i]
 	}
 	return x
 }
